@@ -43,6 +43,13 @@ type docNode struct {
 	kids  map[string]*docNode
 	root  *docNode
 	isTop bool
+
+	// aliasing (C13): this node is a renamed view of base; child(k) maps k through rename,
+	// keys that were renamed away are absent; wrap: this node is an array [base]
+	base   *docNode
+	rename map[string]string // view key -> base key
+	away   map[string]bool   // base keys hidden in the view
+	wrapOf *docNode
 }
 
 func (e *Explorer) newDoc() *docNode {
@@ -56,6 +63,9 @@ func (e *Explorer) newDoc() *docNode {
 }
 
 func (n *docNode) name(attr string) string {
+	if n.base != nil {
+		return n.base.name(attr)
+	}
 	p := strings.NewReplacer("/", "!", "+", "x", " ", "_", "-", "_", ".", "_", "$", "S").Replace(n.path)
 	var sb strings.Builder
 	for _, r := range p {
@@ -70,6 +80,28 @@ func (n *docNode) name(attr string) string {
 
 func (n *docNode) child(key string) *docNode {
 	if c, ok := n.kids[key]; ok {
+		return c
+	}
+	if n.wrapOf != nil && key == "0" {
+		n.kids[key] = n.wrapOf
+		return n.wrapOf
+	}
+	if n.base != nil {
+		bk, renamed := n.rename[key]
+		if !renamed {
+			bk = key
+		}
+		var c *docNode
+		if n.away[key] && !renamed {
+			// the base's key of this name is not visible in the view: absent
+			c = &docNode{e: n.e, doc: n.doc, path: n.path + "/" + key + "~away", kids: map[string]*docNode{}, root: n.root}
+			n.e.PC = append(n.e.PC, c.kindIs(kAbsent).t)
+		} else {
+			b := n.base.child(bk)
+			c = &docNode{e: n.e, doc: n.doc, path: n.path + "/" + key, kids: map[string]*docNode{}, root: n.root,
+				base: b, rename: n.rename, away: n.away}
+		}
+		n.kids[key] = c
 		return c
 	}
 	p := key
@@ -95,9 +127,20 @@ func (n *docNode) at(path string) *docNode {
 	return cur
 }
 
-func (n *docNode) kind() sym { return n.e.named(n.name("kind"), sBV, 8) }
+func (n *docNode) kind() sym {
+	if n.wrapOf != nil {
+		return sym{sBV, 8, bvLit(8, kArray)}
+	}
+	if n.base != nil {
+		return n.base.kind()
+	}
+	return n.e.named(n.name("kind"), sBV, 8)
+}
 func (n *docNode) boolv() sym { return n.e.named(n.name("b"), sBool, 0) }
 func (n *docNode) intv() sym {
+	if n.base != nil {
+		return n.base.intv()
+	}
 	name := n.name("i")
 	if _, ok := n.e.gridParam(); ok {
 		if !n.e.declared[name] {
@@ -113,6 +156,9 @@ func (n *docNode) isint() sym { return n.e.named(n.name("isint"), sBool, 0) }
 func (n *docNode) strv() sym  { return n.e.named(n.name("s"), sStr, 0) }
 
 func (n *docNode) floatv() sym {
+	if n.base != nil {
+		return n.base.floatv()
+	}
 	name := n.name("f")
 	if g, ok := n.e.gridParam(); ok {
 		_ = g
@@ -127,6 +173,12 @@ func (n *docNode) floatv() sym {
 }
 
 func (n *docNode) lenv() sym {
+	if n.wrapOf != nil {
+		return sym{sBV, 64, bvLit(64, 1)}
+	}
+	if n.base != nil {
+		return n.base.lenv()
+	}
 	name := n.name("len")
 	fresh := !n.e.declared[name]
 	s := n.e.named(name, sBV, 64)
@@ -137,7 +189,15 @@ func (n *docNode) lenv() sym {
 }
 
 func (n *docNode) kindIs(k int) sym {
-	return symEq(n.kind(), sym{sBV, 8, bvLit(8, uint64(k))})
+	kv := n.kind()
+	// cheap propagation: a kind fixed by an earlier conjunct (= var #xNN) needs no solver call
+	if c, ok := n.e.knownConst(kv.t); ok {
+		if c == bvLit(8, uint64(k)) {
+			return mkBool("true")
+		}
+		return mkBool("false")
+	}
+	return symEq(kv, sym{sBV, 8, bvLit(8, uint64(k))})
 }
 
 func (e *Explorer) gridParam() (int, bool) {
@@ -232,7 +292,7 @@ func (i *interpreter) docDecode(fr *frame, ref docRef, target iface, yaml bool) 
 		return i.mkError("json: Unmarshal(nil " + typeString(target.t) + ")")
 	}
 	if n.isTop && !yaml {
-		mal := x.named(fmt.Sprintf("d%d!malformed", n.doc), sBool, 0)
+		mal := x.named(fmt.Sprintf("d%d!malformed", n.canon().doc), sBool, 0)
 		if x.decide(mal) {
 			return i.mkError("invalid character (malformed JSON)")
 		}
@@ -532,7 +592,22 @@ func (c *decodeCtx) decodeIfaceD(n *docNode, cell *value, depth int) {
 }
 
 func (c *decodeCtx) decodeStruct(n *docNode, u *types.Struct, st structure) value {
+	return c.decodeStructShadow(n, u, st, nil)
+}
+
+// decodeStructShadow: shadowed holds the keys taken by shallower fields (encoding/json: of
+// several fields with the same key, the one at the shallowest embedding depth wins).
+func (c *decodeCtx) decodeStructShadow(n *docNode, u *types.Struct, st structure, shadowed map[string]bool) value {
+	own := map[string]bool{}
 	for k := 0; k < u.NumFields(); k++ {
+		if nm, ok := c.fieldKey(u, k); ok {
+			own[nm] = true
+		}
+	}
+	for k := 0; k < u.NumFields(); k++ {
+		if nm, ok := c.fieldKey(u, k); ok && shadowed[nm] {
+			continue
+		}
 		f := u.Field(k)
 		tag := reflect.StructTag(u.Tag(k)).Get(c.tag)
 		if tag == "-" {
@@ -556,7 +631,56 @@ func (c *decodeCtx) decodeStruct(n *docNode, u *types.Struct, st structure) valu
 			}
 		}
 		if f.Anonymous() && tag == "" {
-			panic(unsupported("decode into embedded field"))
+			// embedded (pointer to) struct without a tag: its fields are promoted.  encoding/json
+			// allocates an embedded pointer only when one of the promoted keys is present.
+			ft := f.Type()
+			pt, isPtr := ft.Underlying().(*types.Pointer)
+			if isPtr {
+				ft = pt.Elem()
+			}
+			su, isStruct := ft.Underlying().(*types.Struct)
+			if !isStruct || c.unmarshalerOf(ft) != nil {
+				panic(unsupported("decode into embedded field " + f.Name()))
+			}
+			if isPtr {
+				anyPresent := mkBool("false")
+				inner := map[string]bool{}
+				for key := range own {
+					inner[key] = true
+				}
+				for key := range shadowed {
+					inner[key] = true
+				}
+				for j := 0; j < su.NumFields(); j++ {
+					if nm, ok := c.fieldKey(su, j); ok && !inner[nm] {
+						anyPresent = symOr(anyPresent, symNot(n.child(nm).kindIs(kAbsent)))
+					}
+				}
+				if !c.i.x.decide(anyPresent) {
+					continue
+				}
+				p, _ := st[k].(*value)
+				if p == nil {
+					nv := zero(ft)
+					p = &nv
+					st[k] = p
+				}
+				if err := c.decodeStructShadow(n, su, (*p).(structure), inner); err != nil {
+					return err
+				}
+			} else {
+				inner := map[string]bool{}
+				for key := range own {
+					inner[key] = true
+				}
+				for key := range shadowed {
+					inner[key] = true
+				}
+				if err := c.decodeStructShadow(n, su, st[k].(structure), inner); err != nil {
+					return err
+				}
+			}
+			continue
 		}
 		if !f.Exported() {
 			continue
@@ -566,6 +690,25 @@ func (c *decodeCtx) decodeStruct(n *docNode, u *types.Struct, st structure) valu
 		}
 	}
 	return nil
+}
+
+// fieldKey: the document key a struct field binds to (false: not decoded).
+func (c *decodeCtx) fieldKey(u *types.Struct, k int) (string, bool) {
+	f := u.Field(k)
+	tag := reflect.StructTag(u.Tag(k)).Get(c.tag)
+	if tag == "-" || !f.Exported() || (f.Anonymous() && tag == "") {
+		return "", false
+	}
+	name := f.Name()
+	if c.yaml {
+		name = strings.ToLower(name)
+	}
+	if tag != "" {
+		if p := strings.Split(tag, ",")[0]; p != "" {
+			name = p
+		}
+	}
+	return name, true
 }
 
 // callUnmarshaler runs a custom UnmarshalJSON/UnmarshalYAML on the sub-document.
@@ -632,9 +775,50 @@ func (e *Explorer) assumeQuiet(c sym) {
 	}
 }
 
+// canon: the underlying node of a (chain of) view(s).
+func (n *docNode) canon() *docNode {
+	for n.base != nil || n.wrapOf != nil {
+		if n.base != nil {
+			n = n.base
+		} else {
+			n = n.wrapOf
+		}
+	}
+	return n
+}
+
 func (n *docNode) collect(out *[]DocNodeInfo) {
+	n.collectAs(out, n.doc, "")
+}
+
+// collectAs lists the nodes of a (possibly aliased) document under their VIEW paths.
+func (n *docNode) collectAs(out *[]DocNodeInfo, doc int, path string) {
+	if n.wrapOf != nil {
+		*out = append(*out, DocNodeInfo{Doc: doc, Path: path, Wrap: true})
+		p := "0"
+		if path != "" {
+			p = path + "/0"
+		}
+		n.wrapOf.collectAs(out, doc, p)
+		return
+	}
 	full := n.name("kind")
-	*out = append(*out, DocNodeInfo{Doc: n.doc, Path: n.path, Prefix: strings.TrimSuffix(full, ".kind")})
+	*out = append(*out, DocNodeInfo{Doc: doc, Path: path, Prefix: strings.TrimSuffix(full, ".kind")})
+	if true {
+		var keys []string
+		for k := range n.kids {
+			keys = append(keys, k)
+		}
+		sortStrings(keys)
+		for _, k := range keys {
+			p := k
+			if path != "" {
+				p = path + "/" + k
+			}
+			n.kids[k].collectAs(out, doc, p)
+		}
+		return
+	}
 	var keys []string
 	for k := range n.kids {
 		keys = append(keys, k)
@@ -679,6 +863,17 @@ func BuildDocJSON(nodes []DocNodeInfo, doc int, model map[string]string, grid in
 	var render func(path string) (string, bool)
 	render = func(path string) (string, bool) {
 		n := byPath[path]
+		if n.Wrap {
+			cp := "0"
+			if path != "" {
+				cp = path + "/0"
+			}
+			t, ok := render(cp)
+			if !ok {
+				t = "null"
+			}
+			return "[" + t + "]", true
+		}
 		kind := 0
 		if mv, ok := modelVal(model, n.Prefix+".kind"); ok {
 			kind = int(mv.U)
